@@ -4,7 +4,7 @@ from __future__ import annotations
 
 from .. import gen, probe, spec
 from ..probe import violation
-from .common import call, grow_while_asking
+from .common import scale_leg, call, grow_while_asking
 
 PROP = "C02"
 LEVEL = "exploration"
@@ -42,6 +42,7 @@ def setup(ctx):
 
 def run_case(ctx, g, rng):
     api = ctx.api
+    scale_leg(ctx, rng, rng.choice([":", ":", "/", "::"]), modes=False, g=g)
     S = probe.S
     if g % 6 == 5:
         d = ":"
